@@ -250,6 +250,8 @@ comp_ob("rg_reorder", "h_rg_reorder", RGP, RGB, ["src/compress.c:can_reorder", "
 comp_ob("rg_collect", "h_rg_collect", RGP, RGB, ["src/compress.c:can_collect", "src/compress.c:do_collect"], ["collect_enabled", "input_block_split"])
 comp_ob("rg_collect_seq", "h_rg_collect_seq", {"C11": "quick", "C13": "quick", "C04": "quick", "C03": "quick"}, RGB + "; sequential mode (-u): with or without a block left unfinished by the previous piece, block becoming full or not",
         ["src/compress.c:can_collect_seq", "src/compress.c:do_collect_seq"], ["collect_seq_enabled", "block_continued_from_previous_piece", "block_stays_unfinished"])
+comp_ob("rg_collect_seq_flush", "h_rg_collect_seq_flush", {"C11": "quick", "C04": "quick", "C01": "quick"}, RGB + "; sequential mode at end of input with a block left unfinished",
+        ["src/compress.c:can_collect_seq", "src/compress.c:do_collect_seq"], ["last_block_flushed"])
 comp_ob("rg_write_complete", "h_rg_write_complete", RGP, RGB, ["src/compress.c:on_write_complete"], ["write_completes"])
 comp_ob("rg_input_avail", "h_rg_input_avail", RGP, RGB, ["src/compress.c:on_input_avail"], ["input_block_arrives"])
 comp_ob("terminate_guard", "h_terminate_guard", {"C11": "quick"}, RGB, ["src/compress.c:can_terminate"], ["terminates"])
